@@ -104,7 +104,7 @@ func genCutProgram(r *h.Rng) Case {
 // GenC02: every stream of C01 (the property's quantifier) plus the C02-only streams above.
 func GenC02(r *h.Rng, tier string, emit func(string)) {
 	st := h.Stats{}
-	np, nrand, nmem, nsbrk, nx := 2, 14000, 6000, 2000, 6000
+	np, nrand, nmem, nsbrk, nx := 2, 16000, 8000, 3000, 8000
 	if tier == "thorough" {
 		np, nrand, nmem, nsbrk, nx = 8, 300000, 100000, 30000, 100000
 	}
